@@ -9,7 +9,7 @@
 pub mod acl {
     use soroban_sdk::{contract, contractimpl, symbol_short, Address, Env, Symbol, Vec};
     use stellar_access::access_control::{
-        remove_role_accounts_count_no_auth, remove_role_admin_no_auth, set_admin, AccessControl,
+        get_admin, grant_role_no_auth, remove_role_accounts_count_no_auth, remove_role_admin_no_auth, set_admin, AccessControl,
     };
     use stellar_macros::{has_any_role, has_role, only_admin, only_any_role, only_role};
 
@@ -52,6 +52,16 @@ pub mod acl {
         #[only_admin]
         pub fn remove_role_count(e: &Env, role: Symbol) {
             remove_role_accounts_count_no_auth(e, &role);
+        }
+
+        /// documented use of the low-level grant in set-up / batch flows (an initial member list may name an account
+        /// twice: "Returns early if the account already has the role")
+        #[only_admin]
+        pub fn seed_role(e: &Env, role: Symbol, accounts: Vec<Address>) {
+            let admin = get_admin(e).unwrap();
+            for a in accounts.iter() {
+                grant_role_no_auth(e, &a, &role, &admin);
+            }
         }
 
         /// role check + require_auth injected by the macro
